@@ -5,14 +5,17 @@
 cd "$(dirname "$0")/.."
 S=$(mktemp -d /tmp/verif_benign.XXXX)
 rsync -a --exclude .git /repo/ $S/
+# run from a frozen copy of the machinery, so that edits made meanwhile do not disturb the run
+V=$(mktemp -d /tmp/verif_benign_vf.XXXX)
+rsync -a --exclude out vf tools baseline_obligations.json known_findings.json $V/
 bad=0
 for d in benign/*.diff; do
   (cd $S && git init -q 2>/dev/null; true)
   if ! (cd $S && patch -p1 -s < $OLDPWD/$d); then echo "$d: does not apply"; bad=1; continue; fi
-  out=$(VERIF_REPO=$S PYTHONPATH=$PWD python3-vt tools/proofs_only.py $(basename $d .diff) 2>&1 | grep -v '^WARNING')
+  out=$(cd $V && VERIF_REPO=$S PYTHONPATH=$V python3-vt tools/proofs_only.py $(basename $d .diff) 2>&1 | grep -v '^WARNING')
   echo "$out" | tail -1
   echo "$out" | grep -q "'refuted': 0, 'lost': 0, 'missing': 0" || { echo "$out" | head -5; bad=1; }
   (cd $S && patch -p1 -R -s < $OLDPWD/$d)
 done
-rm -rf $S
+rm -rf $S $V
 exit $bad
